@@ -44,10 +44,10 @@ META = {
 }
 
 TOL_ULP = 4
-# /repo commit 82074b6 made BaseModel.solve_t reject periods without enough lags/leads (IndexError).  M1
-# (FsicModel/Solver.lean, owned by the C02 work package) gains that test separately; until it is merged into this
-# branch the Python-side *model* tie skips calls that address such a period (the oracle and the Fortran-side tie do not).
-M1_HAS_FEASIBILITY_TEST = False
+# /repo commit 82074b6 made BaseModel.solve_t reject periods without enough lags/leads (IndexError); M1
+# (FsicModel/Solver.lean) has that test since /verif 72aadbd.  With False the Python-side model tie would skip calls
+# that address such a period.
+M1_HAS_FEASIBILITY_TEST = True
 
 
 # ---------------------------------------------------------------------------------------------------------------
